@@ -151,7 +151,8 @@ RECURSIVE Ev(_, _, _, _, _, _), Upd(_, _, _, _, _, _), ApplyU(_, _, _, _),
           Combos(_, _, _, _, _, _), FoldRun(_, _, _, _, _, _, _, _),
           RedFold(_, _, _, _, _, _), Native(_, _, _, _, _, _, _), NatUpd(_, _, _, _, _, _, _),
           UpdParts(_, _, _, _, _, _), RecUp(_, _, _, _), RangeFrom(_, _, _, _, _),
-          IterUpd(_, _, _, _, _), IndexUpd(_, _, _, _, _, _), SliceUpd(_, _, _, _, _, _, _)
+          IterUpd(_, _, _, _, _), IndexUpd(_, _, _, _, _, _), SliceUpd(_, _, _, _, _, _, _),
+          NativeColl(_, _, _, _, _, _, _)
 
 RangeCap == 40
 
@@ -467,8 +468,8 @@ IndexUpd(w, i, opt, u, lc, fuel) ==
      ELSE IF w.t \in {"arr", "str", "bytes"} /\ i.t = "obj"
      THEN SliceUpd(w, ObjGet(i.o, StrV(Ascii("start"))), ObjGet(i.o, StrV(Ascii("end"))), opt, u, lc, fuel)
      ELSE IF w.t = "arr" THEN
-       IF i.t # "int" THEN fail
-       ELSE LET len == Len(w.a)  a == IF i.n < 0 THEN len + i.n ELSE i.n
+       IF ~IsInt(i) THEN fail
+       ELSE LET len == Len(w.a)  n == NumP(i)  a == IF n < 0 THEN len + n ELSE n
             IN IF a < 0 \/ a >= len THEN fail
                ELSE LET s == ApplyU(u, w.a[a + 1], lc, fuel)
                     IN IF s.o # <<>> THEN One(Pv0(ArrV([w.a EXCEPT ![a + 1] = s.o[1].v])))
@@ -514,6 +515,7 @@ Native(m, name, args, env, x, lc, fuel) ==
       Const(c) == Con(One(Pv0(c)))
   IN
   CASE name = "empty" -> Emp
+    [] name = "!ierr" -> ErrS(IErr)     \* "it fails": an error whose message the manual does not fix
     [] name = "error" /\ n = 0 -> ErrS(v)
     [] name = "error" /\ n = 1 -> Bind(RunA(1), LAMBDA y : ErrS(y.v))
     [] name = "true" -> Const(True)
@@ -529,13 +531,13 @@ Native(m, name, args, env, x, lc, fuel) ==
     [] name = "last" /\ n = 1 ->
          LET s == EvA(1) IN IF ~IsOk(s) THEN End(s.e) ELSE IF s.o = <<>> THEN Emp ELSE One(s.o[Len(s.o)])
     [] name = "limit" ->
-         Bind(RunA(1), LAMBDA c : IF c.v.t # "int" THEN End(UnkT)
-                                  ELSE IF c.v.n <= 0 THEN Emp ELSE Take(EvA(2), c.v.n))
+         Bind(RunA(1), LAMBDA c : IF ~IsInt(c.v) THEN End(UnkT)
+                                  ELSE IF NumP(c.v) <= 0 THEN Emp ELSE Take(EvA(2), NumP(c.v)))
     [] name = "skip" ->
-         Bind(RunA(1), LAMBDA c : IF c.v.t # "int" THEN End(UnkT)
-                                  ELSE LET s == EvA(2)
-                                       IN IF c.v.n <= 0 THEN s
-                                          ELSE IF Len(s.o) >= c.v.n THEN S(SubSeq(s.o, c.v.n + 1, Len(s.o)), s.e)
+         Bind(RunA(1), LAMBDA c : IF ~IsInt(c.v) THEN End(UnkT)
+                                  ELSE LET s == EvA(2)  cnt == NumP(c.v)
+                                       IN IF cnt <= 0 THEN s
+                                          ELSE IF Len(s.o) >= cnt THEN S(SubSeq(s.o, cnt + 1, Len(s.o)), s.e)
                                           ELSE End(s.e))
     [] name = "range" /\ n = 3 ->
          Con(Bind(RunA(1), LAMBDA a : Bind(RunA(2), LAMBDA b : Bind(RunA(3), LAMBDA c :
@@ -556,7 +558,7 @@ Native(m, name, args, env, x, lc, fuel) ==
     [] name = "length" ->
          Con(G(CASE v.t = "null" -> IntV(0)
                  [] v.t = "bool" -> IFail
-                 [] v.t = "int" -> IntV(Abs(v.n))
+                 [] IsInt(v) -> IntV(Abs(NumP(v)))
                  [] v.t = "flt" -> FltV(Abs(v.p), v.q)
                  [] v.t \in {"str", "bytes", "arr"} -> IntV(Length(v))
                  [] v.t = "obj" -> IntV(Len(v.o))
@@ -569,7 +571,7 @@ Native(m, name, args, env, x, lc, fuel) ==
                                              ELSE LET r == Index(v, k.v)
                                                   IN IF ~IsVal(r) THEN r
                                                      ELSE IF v.t = "obj" THEN Bool(ObjHas(v.o, k.v))
-                                                     ELSE IF k.v.t = "int" THEN Has(v, k.v)
+                                                     ELSE IF IsInt(k.v) THEN Has(v, k.v)
                                                      ELSE True)))
     [] name = "tojson" -> Con(G(IF v.t = "obj" /\ v.uo /\ Len(v.o) > 1 THEN Unk ELSE ToJsonV(v)))
     [] name = "tostring" -> Con(G(IF HasUo(v) THEN Unk ELSE ToStr(v)))
@@ -590,6 +592,131 @@ Native(m, name, args, env, x, lc, fuel) ==
     [] name = "isempty" ->
          LET s == RunA(1)
          IN Con(IF s.o # <<>> THEN One(Pv0(False)) ELSE IF IsOk(s) THEN One(Pv0(True)) ELSE End(s.e))
+    [] OTHER -> NativeColl(m, name, args, env, x, lc, fuel)
+
+-----------------------------------------------------------------------------
+(* collection built-ins (manual, stdlib "Arrays", "Membership", "Text strings"); value mode only *)
+RECURSIVE Contains(_, _), IsSubSeqAt(_, _, _), RunsOf(_, _)
+
+\* does the code point / value sequence y occur in x at 1-based position i (plain equality of elements)?
+IsSubSeqAt(x, y, i) == i + Len(y) - 1 <= Len(x) /\ \A k \in 1..Len(y) : x[i + k - 1] = y[k]
+
+\* contains($x) (manual, stdlib "contains")
+Contains(a, b) ==
+  CASE IsStr(a) /\ IsStr(b) /\ a.t = b.t -> \E i \in 1..(Len(BytesOf(a)) + 1) : IsSubSeqAt(BytesOf(a), BytesOf(b), i)
+    [] a.t = "arr" /\ b.t = "arr" -> \A j \in 1..Len(b.a) : \E i \in 1..Len(a.a) : Contains(a.a[i], b.a[j])
+    [] a.t = "obj" /\ b.t = "obj" -> \A j \in 1..Len(b.o) : ObjHas(a.o, b.o[j][1]) /\ Contains(ObjGet(a.o, b.o[j][1]), b.o[j][2])
+    [] OTHER -> Eq(a, b)
+
+\* is a text string compared for containment with a different byte string (or vice versa) somewhere?
+RECURSIVE MixedStr(_, _)
+MixedStr(a, b) ==
+  CASE IsStr(a) /\ IsStr(b) -> a.t # b.t /\ ~Eq(a, b)
+    [] a.t = "arr" /\ b.t = "arr" -> \E j \in 1..Len(b.a) : \E i \in 1..Len(a.a) : MixedStr(a.a[i], b.a[j])
+    [] a.t = "obj" /\ b.t = "obj" -> \E j \in 1..Len(b.o) : ObjHas(a.o, b.o[j][1]) /\ MixedStr(ObjGet(a.o, b.o[j][1]), b.o[j][2])
+    [] OTHER -> FALSE
+
+\* maximal runs of equal keys of a key-sorted list of <<key, value>> pairs
+RunsOf(kvs, acc) ==
+  IF kvs = <<>> THEN (IF acc = <<>> THEN <<>> ELSE << acc >>)
+  ELSE IF acc = <<>> \/ Eq(acc[1][1], Head(kvs)[1]) THEN RunsOf(Tail(kvs), Append(acc, Head(kvs)))
+  ELSE << acc >> \o RunsOf(Tail(kvs), << Head(kvs) >>)
+
+NativeColl(m, name, args, env, x, lc, fuel) ==
+  LET v    == x.v
+      n    == Len(args)
+      RunA(k) == Ev("run", args[k], env, Pv0(v), lc, fuel)
+      Con(s)  == IF m = "run" THEN s ELSE ErrS(IErr)
+      G(r)    == IF HasIErr(v) THEN End(UnkT) ELSE FromR(r)
+      \* key of every element under the filter argument: [f]
+      keyS(i) == Ev("run", args[1], env, Pv0(v.a[i]), lc, fuel)
+      badK    == {i \in 1..Len(v.a) : ~IsOk(keyS(i))}
+      keyOf(i) == ArrV([j \in 1..Len(keyS(i).o) |-> keyS(i).o[j].v])
+      sorted  == SortKV([i \in 1..Len(v.a) |-> << keyOf(i), v.a[i] >>])
+      ByKey(F(_)) == IF v.t # "arr" THEN ErrS(IErr)
+                     ELSE IF HasIErr(v) THEN End(UnkT)
+                     ELSE IF badK # {} THEN End(keyS(CHOOSE i \in badK : \A h \in badK : i <= h).e)
+                     ELSE IF \E i \in 1..Len(v.a) : HasIErr(keyOf(i)) THEN End(UnkT)
+                     ELSE One(Pv0(F(sorted)))
+      vals(kvs) == [i \in 1..Len(kvs) |-> kvs[i][2]]
+      extremal(kvs, wantmin) ==
+        IF kvs = <<>> THEN Null
+        ELSE LET k0 == IF wantmin THEN kvs[1][1] ELSE kvs[Len(kvs)][1]
+                 alts == SelectSeq(kvs, LAMBDA kv : Eq(kv[1], k0))
+             IN IF Len(alts) = 1 THEN alts[1][2] ELSE OneOf(vals(alts))
+      idF == n = 0
+  IN
+  CASE name = "sort_by" /\ n = 1 -> Con(ByKey(LAMBDA kvs : ArrV(vals(kvs))))
+    [] name = "group_by" /\ n = 1 -> Con(ByKey(LAMBDA kvs : ArrV([i \in 1..Len(RunsOf(kvs, <<>>)) |-> ArrV(vals(RunsOf(kvs, <<>>)[i]))])))
+    [] name = "unique_by" /\ n = 1 -> Con(ByKey(LAMBDA kvs : ArrV([i \in 1..Len(RunsOf(kvs, <<>>)) |-> RunsOf(kvs, <<>>)[i][1][2]])))
+    [] name = "min_by" /\ n = 1 -> Con(ByKey(LAMBDA kvs : extremal(kvs, TRUE)))
+    [] name = "max_by" /\ n = 1 -> Con(ByKey(LAMBDA kvs : extremal(kvs, FALSE)))
+    [] name = "contains" /\ n = 1 ->
+         Con(Bind(RunA(1), LAMBDA b : IF HasIErr(b.v) \/ HasIErr(v) THEN End(UnkT)
+                                     ELSE IF MixedStr(v, b.v) THEN End(UnkT)   \* a text and a byte string that are not equal: not covered
+                                     ELSE One(Pv0(Bool(Contains(v, b.v))))))
+    [] name = "indices" /\ n = 1 ->
+         Con(Bind(RunA(1), LAMBDA b :
+               IF HasIErr(b.v) \/ HasIErr(v) THEN End(UnkT)
+               ELSE IF v.t = "str" /\ b.v.t = "str" THEN
+                      (IF b.v.c = <<>> THEN End(UnkT)
+                       ELSE One(Pv0(ArrV(SelectSeq([i \in 1..Len(v.c) |-> IF IsSubSeqAt(v.c, b.v.c, i) THEN IntV(i - 1) ELSE Null],
+                                                   LAMBDA e : e.t = "int")))))
+               ELSE IF v.t = "arr" /\ b.v.t = "arr" THEN (IF b.v.a = <<>> THEN End(UnkT) ELSE One(Pv0(ArrV(OccFrom(v.a, b.v.a, 1)))))
+               ELSE IF v.t = "arr" THEN One(Pv0(ArrV(OccFrom(v.a, << b.v >>, 1))))
+               ELSE IF v.t \in {"null", "bytes"} \/ b.v.t = "bytes" THEN End(UnkT)
+               ELSE ErrS(IErr)))
+    [] name = "bsearch" /\ n = 1 ->
+         Con(Bind(RunA(1), LAMBDA b :
+               IF HasIErr(b.v) \/ HasIErr(v) THEN End(UnkT)
+               ELSE IF v.t # "arr" THEN ErrS(IErr)
+               ELSE IF \E i \in 1..(Len(v.a) - 1) : Cmp(v.a[i], v.a[i + 1]) > 0 THEN End(UnkT)   \* not sorted: meaningless
+               ELSE LET hits == SelectSeq([i \in 1..Len(v.a) |-> IF Eq(v.a[i], b.v) THEN IntV(i - 1) ELSE Null], LAMBDA e : e.t = "int")
+                        less == Cardinality({i \in 1..Len(v.a) : Cmp(v.a[i], b.v) < 0})
+                    IN IF hits = <<>> THEN One(Pv0(IntV(-less - 1)))
+                       ELSE IF Len(hits) = 1 THEN One(Pv0(hits[1])) ELSE One(Pv0(OneOf(hits)))))
+    [] name = "transpose" /\ n = 0 ->
+         Con(IF HasIErr(v) THEN End(UnkT)
+             ELSE IF v.t # "arr" \/ v.a = <<>> \/ \E i \in 1..Len(v.a) : v.a[i].t # "arr" THEN End(UnkT)
+             ELSE LET w == SetMax({Len(v.a[i].a) : i \in 1..Len(v.a)})
+                  IN One(Pv0(ArrV([xx \in 1..w |-> ArrV([y \in 1..Len(v.a) |-> IF xx <= Len(v.a[y].a) THEN v.a[y].a[xx] ELSE Null])]))))
+    [] name \in {"startswith", "endswith", "ltrimstr", "rtrimstr"} /\ n = 1 ->
+         Con(Bind(RunA(1), LAMBDA b :
+               IF HasIErr(b.v) \/ HasIErr(v) THEN End(UnkT)
+               ELSE IF v.t # "str" \/ b.v.t # "str"
+                    THEN (IF name \in {"ltrimstr", "rtrimstr"} THEN End(UnkT) ELSE ErrS(IErr))
+               ELSE LET s == v.c  t == b.v.c
+                        pre == Len(t) <= Len(s) /\ SubSeq(s, 1, Len(t)) = t
+                        suf == Len(t) <= Len(s) /\ SubSeq(s, Len(s) - Len(t) + 1, Len(s)) = t
+                    IN CASE name = "startswith" -> One(Pv0(Bool(pre)))
+                         [] name = "endswith" -> One(Pv0(Bool(suf)))
+                         [] name = "ltrimstr" -> One(Pv0(IF pre THEN StrV(SubSeq(s, Len(t) + 1, Len(s))) ELSE v))
+                         [] name = "rtrimstr" -> One(Pv0(IF suf THEN StrV(SubSeq(s, 1, Len(s) - Len(t))) ELSE v))))
+    [] name = "explode" /\ n = 0 ->
+         Con(G(IF v.t = "str" THEN ArrV([i \in 1..Len(v.c) |-> IntV(v.c[i])]) ELSE IF v.t = "bytes" THEN Unk ELSE IFail))
+    [] name = "implode" /\ n = 0 ->
+         Con(G(IF v.t = "arr" /\ \A i \in 1..Len(v.a) : v.a[i].t = "int" /\ v.a[i].n > -256 /\ v.a[i].n < 1114112 /\ ~(v.a[i].n >= 55296 /\ v.a[i].n <= 57343) /\ ~(v.a[i].n < 0 /\ v.a[i].n > -128)
+               THEN StrV([i \in 1..Len(v.a) |-> v.a[i].n]) ELSE Unk))
+    [] name \in {"ascii_downcase", "ascii_upcase"} /\ n = 0 ->
+         Con(G(IF v.t = "str"
+               THEN StrV([i \in 1..Len(v.c) |->
+                            IF name = "ascii_downcase" /\ v.c[i] >= 65 /\ v.c[i] <= 90 THEN v.c[i] + 32
+                            ELSE IF name = "ascii_upcase" /\ v.c[i] >= 97 /\ v.c[i] <= 122 THEN v.c[i] - 32
+                            ELSE v.c[i]])
+               ELSE IF v.t = "bytes" THEN Unk ELSE IFail))
+    [] name = "utf8bytelength" /\ n = 0 -> Con(G(IF IsStr(v) THEN IntV(Len(BytesOf(v))) ELSE IFail))
+    [] name \in {"floor", "round", "ceil"} /\ n = 0 ->
+         Con(G(IF IsInt(v) THEN IntV(NumP(v))
+               ELSE IF v.t \in {"flt", "dec"} THEN
+                      LET p == NumP(v)  q == NumQ(v)
+                          fl == IF p >= 0 THEN p \div q ELSE -((-p + q - 1) \div q)
+                          ce == IF p >= 0 THEN (p + q - 1) \div q ELSE -((-p) \div q)
+                          \* round half away from zero
+                          ro == IF p >= 0 THEN (2 * p + q) \div (2 * q) ELSE -((2 * (-p) + q) \div (2 * q))
+                      IN IntV(CASE name = "floor" -> fl [] name = "ceil" -> ce [] name = "round" -> ro)
+               ELSE IF v.t = "nz" THEN IntV(0)
+               ELSE IF v.t = "fsp" THEN v
+               ELSE IFail))
     [] OTHER -> End(UnsupT)
 
 NatUpd(name, args, env, v, u, lc, fuel) ==
